@@ -28,3 +28,29 @@ contract(M, 'regexp_words_up_to_n', {'r': 'Regexp', 'n': 'Int'}, returns='Set[Wo
                   _S % 'take(k, w) in regexp_words_up_to_n(r.operand, k)', _S % 'drop(k, w) in regexp_words_up_to_n(r, n - k)',
                   _S % 'w in concatenate(regexp_words_up_to_n(r.operand, k), regexp_words_up_to_n(r, n - k))', _S % 'w in result'],
          theories=['word', 'regexp'], props=['C02', 'C19'], symbol_is_regexp=True)
+
+# ---------------------------------------------------------------------------------------------- C06: the generalised NFA of a DFA
+_LBL = 'mem(w, L(relookup(%s, (x, y))))'
+_EDGE = 'any(a in D.Sigma and %s and D.delta[(x, a)] == y and w == single(a) for a in atoms())'
+_GK = ('all(((x, y) in delta1) == ((x == q_start and y == D.q0) or (x in D.F and y == q_accept and %s) or (x in D.Q and y in D.Q and any(a in D.Sigma and %s and D.delta[(x, a)] == y for a in atoms()))) '
+       'for x in atoms() for y in atoms())')
+_GL = 'all(implies(x in D.Q and y in D.Q, %s == %s) for x in atoms() for y in atoms() for w in allwords())'
+_GFIX = ['q_start not in D.Q', 'q_accept not in D.Q', 'q_start != q_accept', 'delta1[(q_start, D.q0)] == One()']
+# facts of the language algebra in the shape the loop needs (valid: proved at loop entry, kept trivially, then available as hypotheses)
+_GLANG = ['all(mem(w, L(Sum(r, Symbol(a)))) == (mem(w, L(r)) or w == single(a)) for w in allwords() for r in regexps() for a in atoms())',
+          'all(mem(w, L(Symbol(a))) == (w == single(a)) for w in allwords() for a in atoms())', 'all(not mem(w, L(Zero())) for w in allwords())']
+contract(M, 'dfa_to_gnfa', {'D': 'DFA'}, returns='GNFA', requires=['dfa_wf(D)'],
+         ensures=['result.Sigma == D.Sigma', 'result.Q == D.Q | {result.q_start, result.q_accept}', 'result.q_start not in D.Q', 'result.q_accept not in D.Q', 'result.q_start != result.q_accept',
+                  # the labels: between two states of D exactly the letters of the transitions from the first to the second; One from the new start state to
+                  # the old initial state and from every accepting state to the new accept state; nothing else
+                  _GL % (_LBL % 'result.delta', _EDGE % 'True'),
+                  'relookup(result.delta, (result.q_start, D.q0)) == One()',
+                  'all(implies(x in D.F, relookup(result.delta, (x, result.q_accept)) == One()) for x in atoms())',
+                  'all(implies((x, y) in result.delta, (x == result.q_start and y == D.q0) or (x in D.F and y == result.q_accept) or (x in D.Q and y in D.Q)) for x in atoms() for y in atoms())'],
+         types={'Q1': 'Set[State]', 'delta1': 'Map[(State,State),Regexp,default=zero]'},
+         loops={1: {'ghost': 'doneF', 'invariant': _GFIX + [_GK % ('x in doneF', 'False'), 'all(implies(x in doneF, delta1[(x, q_accept)] == One()) for x in atoms())']},
+                2: {'ghost': 'doneK', 'invariant': _GFIX + _GLANG + [_GK % ('True', '(x, a) in doneK'), 'all(implies(x in D.F, delta1[(x, q_accept)] == One()) for x in atoms())',
+                                                          _GL % (_LBL % 'delta1', _EDGE % '(x, a) in doneK')]}},
+         theories=['word', 'dfa', 'naming', 'regexp'], props=['C06', 'C19'], symbol_is_regexp=True,
+         note='exact labels of the generalised NFA; the state elimination gnfa_minimize and the composition dfa_to_regexp are covered by the bounded stand-in. '
+              'Naming assumption N5: generated start / accept names differ')
